@@ -25,6 +25,8 @@ SCORE_KINDS = [
     "touching",  # max of one class == min of the other
     "scaled",  # lattice * 2^k + offset
     "perm",  # permutation of distinct integers (tie-free, exactly representable)
+    "mixed_int_float",  # one class integer dtype, the other non-integer floats (dtype promotion when the classes are pooled)
+    "mixed_f32_f64",  # one class float32, the other float64
 ]
 
 
@@ -89,6 +91,20 @@ def scores(rng, min_pos=0, min_neg=0, maxn=40, kinds=None, big=False):
         off = float(rng.integers(-1000, 1000))
         pos = rng.integers(0, 6, npos).astype(float) * k + off
         neg = rng.integers(0, 6, nneg).astype(float) * k + off
+    elif kind == "mixed_int_float":
+        ints = rng.integers(0, 4, nneg if rng.random() < 0.5 else npos)
+        if len(ints) == nneg:
+            pos, neg = rng.uniform(0, 3, npos), ints
+        else:
+            pos, neg = ints, rng.uniform(0, 3, nneg)
+        if len(ints) != (nneg if neg is ints else npos):  # pragma: no cover
+            pos, neg = rng.uniform(0, 3, npos), rng.integers(0, 4, nneg)
+    elif kind == "mixed_f32_f64":
+        pos, neg = rng.normal(0.5, 1, npos), rng.normal(-0.5, 1, nneg)
+        if rng.random() < 0.5:
+            pos = pos.astype(np.float32)
+        else:
+            neg = neg.astype(np.float32)
     else:  # perm
         allv = rng.permutation(npos + nneg).astype(float)
         pos, neg = allv[:npos], allv[npos:]
